@@ -195,18 +195,22 @@ def ob_motif_clustering(name, n):
     return run_bits(name, n, True, specs, funcs, "C03|Network")
 
 
-def ob_path_family(name, n, graphs):
+def ob_path_family(name, n, graphs, directed=False):
     """measures built on the (link-length weighted) shortest-path matrix, for concrete topologies incl. disconnected ones and symbolic
     positive link lengths: closeness = (N-1) / sum_j d_ij with unreachable pairs counted as N, average path length over connected
     ordered pairs, global efficiency = mean of 1/d_ij over ordered pairs (0 for unreachable)"""
     from pyunicorn.core.network import Network
     funcs = [f"{NW} Network.path_lengths/closeness/average_path_length/global_efficiency (link_attribute given)"]
-    bound = f"{len(graphs)} labelled graphs n={n}, symbolic positive link lengths"
+    bound = f"{len(graphs)} labelled {'directed ' if directed else ''}graphs n={n}, symbolic positive link lengths"
     W = np.zeros((n, n), dtype=object)
     hyps = []
     for i in range(n):
-        for j in range(i + 1, n):
-            W[i, j] = W[j, i] = SV(z3.Real(f"l_{i}_{j}"))
+        for j in range(n):
+            if i == j or (not directed and j < i):
+                continue
+            W[i, j] = SV(z3.Real(f"l_{i}_{j}"))
+            if not directed:
+                W[j, i] = W[i, j]
             hyps.append(W[i, j].v > 0)
     res, nq, npaths = [], 0, 0
     found = {}
@@ -214,9 +218,9 @@ def ob_path_family(name, n, graphs):
         def harness(ex, G=G):
             labs = []
             with pe.patched(mods()):
-                A, present = pnet.concrete_adjacency(G)
+                A, present = pnet.concrete_adjacency(G, directed)
                 w = SymNd(np.array([SV(1)] * n, dtype=object))
-                net = pnet.make_network(Network, A, w, present, False, {"la": SymNd(W.copy())})
+                net = pnet.make_network(Network, A, w, present, directed, {"la": SymNd(W.copy())})
                 D = np.asarray(net.path_lengths("la"), dtype=object)
                 dist = [[D[i, j] for j in range(n)] for i in range(n)]
                 fin = [[not (isinstance(dist[i][j], float) and dist[i][j] == float("inf")) for j in range(n)] for i in range(n)]
@@ -266,7 +270,7 @@ def ob_path_family(name, n, graphs):
                     if v == "sat":
                         if m is None:
                             _, m = Q.check(hyps + p.cond(), 30, tag=f"{name}|model")
-                        found[sig] = {"kind": "py:c03path", "A": G, "measure": lab,
+                        found[sig] = {"kind": "py:c03path", "A": G, "measure": lab, "directed": directed,
                                       "W": [[(sx.model_value(m, W[i, j].v) if i != j and m is not None else 0) for j in range(n)] for i in range(n)]}
                         break
                     if v != "unsat":
@@ -292,6 +296,12 @@ def obligations(tier):
         step = 16
         for ci in range(0, len(graphs), step):
             obs.append((ob_path_family, dict(name=f"C03|py path family|n={n}|graphs#{ci // step}", n=n, graphs=graphs[ci:ci + step]), 2400))
+    from .C02 import all_digraphs
+    for n in ((2, 3) if not th else (2, 3)):
+        dg = list(all_digraphs(n))
+        step = 16
+        for ci in range(0, len(dg), step):
+            obs.append((ob_path_family, dict(name=f"C03|py path family|directed n={n}|graphs#{ci // step}", n=n, graphs=dg[ci:ci + step], directed=True), 2400))
     return obs
 
 
@@ -301,7 +311,7 @@ def replay(w):
     n = len(A)
     meas = w["measure"]
     if w["kind"] == "py:c03path":
-        net = Network(adjacency=A, silence_level=3)
+        net = Network(adjacency=A, directed=bool(w.get("directed")), silence_level=3)
         Wm = np.array(core.to_float(w["W"]), dtype=float)
         net.set_link_attribute("la", Wm)
         D = net.path_lengths("la").copy()
